@@ -537,7 +537,7 @@ func c10Lookup(content map[string]any, raw string) (any, error) {
 }
 
 // c10FillPatchOracles computes the oracle tables of a patch for the given objects.
-func c10FillPatchOracles(p *c10Patch, xr, cd map[string]any) {
+func c10FillPatchOracles(p *c10Patch, xr, cd map[string]any, mons *[]Mon) {
 	typ := p.Type
 	if typ == "" {
 		typ = "FromCompositeFieldPath"
@@ -587,7 +587,7 @@ func c10FillPatchOracles(p *c10Patch, xr, cd map[string]any) {
 		}
 		cur = fmt.Sprintf(*p.Combine.Fmt, vars...)
 	}
-	out, ok := c10FillChainOracles(p.Xfs, cur)
+	out, ok := c10FillChainOracles(p.Xfs, cur, mons)
 	if !ok {
 		return
 	}
@@ -628,7 +628,7 @@ func c10FillPatchOracles(p *c10Patch, xr, cd map[string]any) {
 
 // c10FillChainOracles runs the chain step by step with the real Resolve to learn every step's
 // input, and attaches the library verdicts for that input to each step.
-func c10FillChainOracles(xfs []c10Xf, input any) (any, bool) {
+func c10FillChainOracles(xfs []c10Xf, input any, mons *[]Mon) (any, bool) {
 	cur := input
 	for i := range xfs {
 		xfs[i].Orc = c10StepOracle(xfs[i], cur)
@@ -638,9 +638,44 @@ func c10FillChainOracles(xfs []c10Xf, input any) (any, bool) {
 		if pn := Guard(func() { out, err = composite.Resolve(rt, c10Copy(cur)) }); pn != "" || err != nil {
 			return nil, false
 		}
+		c10ClampMonitor(xfs[i], cur, out, mons)
 		cur = out
 	}
 	return cur, true
+}
+
+func c10AsFloat(v any) (float64, bool) {
+	switch x := v.(type) {
+	case int64:
+		return float64(x), true
+	case float64:
+		return x, true
+	}
+	return 0, false
+}
+
+// c10ClampMonitor: the documented meaning of the clamp transforms, evaluated on the real
+// result: "ClampMin makes sure that the value is not smaller than the given value", "ClampMax
+// makes sure that the value is not bigger than the given value"; a value within the bound is
+// returned unchanged.
+func c10ClampMonitor(t c10Xf, in, out any, mons *[]Mon) {
+	if mons == nil || t.Type != "math" || t.Math == nil {
+		return
+	}
+	o, ok := c10AsFloat(out)
+	if !ok {
+		return
+	}
+	switch t.Math.Type {
+	case "ClampMin":
+		if t.Math.ClampMin != nil && o < float64(*t.Math.ClampMin) {
+			*mons = append(*mons, Mon{Sig: "C10:clamp-exceeds-bound", Why: fmt.Sprintf("ClampMin %d of %v gave %v", *t.Math.ClampMin, in, out)})
+		}
+	case "ClampMax":
+		if t.Math.ClampMax != nil && o > float64(*t.Math.ClampMax) {
+			*mons = append(*mons, Mon{Sig: "C10:clamp-exceeds-bound", Why: fmt.Sprintf("ClampMax %d of %v gave %v", *t.Math.ClampMax, in, out)})
+		}
+	}
 }
 
 func c10Objects(xrC, cdC map[string]any) (*ucomposite.Unstructured, *ucomposed.Unstructured) {
@@ -677,12 +712,12 @@ func c10RunPatch(s *c10Scn) (map[string]any, []Mon, string) {
 		cdC = map[string]any{}
 	}
 	s.XR, s.CD = c10Enc(xrC), c10Enc(cdC)
+	var mons []Mon
 	c10PrepPatch(s.Patch)
-	c10FillPatchOracles(s.Patch, xrC, cdC)
+	c10FillPatchOracles(s.Patch, xrC, cdC, &mons)
 	rp := c10RealPatch(*s.Patch)
 	only := c10PatchTypes(s.Only)
 
-	var mons []Mon
 	run := func() (string, map[string]any, map[string]any) {
 		xr, cd := c10Objects(xrC, cdC)
 		var err error
@@ -849,8 +884,8 @@ func c10RunResolve(s *c10Scn) (map[string]any, []Mon, string) {
 	for i := range s.Xfs {
 		c10PrepXf(&s.Xfs[i])
 	}
-	c10FillChainOracles(s.Xfs, in)
 	var mons []Mon
+	c10FillChainOracles(s.Xfs, in, &mons)
 	run := func() (string, any) {
 		var out any
 		var err error
